@@ -213,6 +213,12 @@ orc_code_allocate_codemem (OrcCode *code, int size)
   /* compiler->codeptr = ORC_PTR_OFFSET(region->write_ptr, chunk->offset); */
 
   orc_global_mutex_unlock ();
+#ifdef ORC_VERIF_HOOKS
+  {
+    extern void (*orc_verif_yield_hook) (int point);
+    if (orc_verif_yield_hook) orc_verif_yield_hook (2);
+  }
+#endif
 }
 
 void
